@@ -101,7 +101,11 @@ func init() {
 		if e.thorough {
 			b, per = 10*e.scale, 50
 		}
-		return runFamilies(e, "C08", "enum", famEnum, b, per, 8, func(c *k2Call) string { return "" }, nil)
+		if err := runFamilies(e, "C08", "enum", famEnum, b, per, 8, func(c *k2Call) string { return "" }, nil); err != nil {
+			return err
+		}
+		e.rep.Rule += "; plus one enum pair converted by two converters of one run, one of which excludes it (enum:exclude, enum no at converter or method level): detection is per converter and method"
+		return runFamilies(e, "C08", "enum-off", famEnumOff, 1, 12, 6, nil, nil)
 	}
 }
 
